@@ -182,4 +182,38 @@ example : createObjectGuard (0 :: 5 :: List.replicate 18 1) [0, 0] = true := by 
 example : grind [0, 0] 10 3 100 [1 :: List.replicate 19 0, 0 :: 200 :: List.replicate 18 0, 0 :: 5 :: List.replicate 18 9]
     = some (0 :: 5 :: List.replicate 18 9, 70) := by decide
 
+/-! ### Routing down the hierarchy keeps ETXs inside the addressed chain -/
+
+/-- **C16 (a region hands a zone only what is addressed to that zone).** Every ETX a region passes down to a zone has
+that zone's prefix - region and zone nibble - so nothing addressed to another region's zone of the same number gets in. -/
+theorem C16_region_hands_down_only_own_zone (slice : Location) (order : Nat) (l : List (Bytes × Nat)) :
+    ∀ e ∈ filterToSub slice 1 order l, zoneOf e.1 = slice := by
+  intro e he
+  simp only [filterToSub, List.mem_filter, keepForSub] at he
+  have := he.2
+  simp at this
+  exact this.1
+
+/-- **C16 (prime hands a region only what is addressed into that region).** -/
+theorem C16_prime_hands_down_only_own_region (slice : Location) (order : Nat) (l : List (Bytes × Nat)) :
+    ∀ e ∈ filterToSub slice 0 order l, (zoneOf e.1).getD 0 0 = slice.getD 0 0 := by
+  intro e he
+  simp only [filterToSub, List.mem_filter, keepForSub] at he
+  simpa using he.2
+
+/-- **C16 (no ETX is handed to two zones).** -/
+theorem C16_no_etx_to_two_zones (s₁ s₂ : Location) (order : Nat) (l : List (Bytes × Nat)) (hne : s₁ ≠ s₂) :
+    ∀ e ∈ filterToSub s₁ 1 order l, e ∉ filterToSub s₂ 1 order l := by
+  intro e h1 h2
+  have a := C16_region_hands_down_only_own_zone s₁ order l e h1
+  have b := C16_region_hands_down_only_own_zone s₂ order l e h2
+  exact hne (a.symm.trans b)
+
+/-- at a prime-order block a region hands a zone everything addressed to it; otherwise exactly the standard ETXs -/
+theorem C16_region_hands_down_everything_addressed (slice : Location) (l : List (Bytes × Nat)) (e : Bytes × Nat)
+    (he : e ∈ l) (hz : zoneOf e.1 = slice) : e ∈ filterToSub slice 1 0 l := by
+  simp [filterToSub, keepForSub, he, hz]
+
+example : filterToSub [0, 2] 1 1 [([0x02, 1], 0), ([0x12, 1], 0), ([0x02, 1], 2)] = [([0x02, 1], 0)] := by decide
+
 end QuaiVerif.Addr
